@@ -222,14 +222,22 @@ Definition split_range_record (r : rrec) (st en : Z) : option rrec :=
 Fixpoint filter_map {A B} (f : A -> option B) (l : list A) : list B :=
   match l with [] => [] | x :: r => match f x with Some y => y :: filter_map f r | None => filter_map f r end end.
 
+(* `cov_range.end.min(end) - cov_range.start.max(start)` is u16 arithmetic: it underflows (panic in the
+   overflow-checks profile) when the record passes the intersection test but the window is empty *)
+Definition split_rr_underflows (r : rrec) (st en : Z) : bool :=
+  let '(s, e, ci) := r in
+  negb ((en <? ci) || (ci + (e - s) <? st)) && (Z.min (ci + (e - s)) en <? Z.max ci st).
+
 (* splitting.rs split_coverage(coverage, start, end) — [en] EXCLUSIVE.  None = panic:
    assert!(start <= end); format 1 slices glyph_array[start..end] (out-of-range panics);
-   format 2 computes `end - 1` in u16 (underflow when end = 0, overflow-checks profile). *)
+   format 2 computes `end - 1` in u16 (underflow when end = 0, overflow-checks profile) and
+   split_range_record can underflow on an empty window (start = end). *)
 Definition split_coverage (c : cov) (st en : Z) : option cov :=
   if en <? st then None else
   match c with
   | Cov1 arr => if zlen arr <? en then None else Some (Cov1 (sublist st en arr))
   | Cov2 rs => if en =? 0 then None
+               else if existsb (fun r => split_rr_underflows r st (en - 1)) rs then None
                else Some (Cov2 (filter_map (fun r => split_range_record r st (en - 1)) rs))
   end.
 
